@@ -5,6 +5,7 @@ import (
 	"github.com/uhppoted/uhppote-core/uhppote"
 	"net"
 	"net/netip"
+	"strings"
 	"time"
 )
 
@@ -106,6 +107,60 @@ func runApiStream(o Opts, prop, oracle string, mix apiMix) error {
 					one(a, cfgA, w, id, false, "history/client-a")
 				} else {
 					one(b, cfgB, w, id, false, "history/client-b")
+				}
+			}
+		}
+	}
+	if mix.edges {
+		// PutCard over a sweep of card numbers with everything else as generated: all 2^n, 2^n - 1 and 2^n + 1, every byte-run
+		// pattern family, numbers derived from the literals of the source, the pool
+		nums := append([]uint32{}, cardPool...)
+		for n := uint(0); n < 32; n++ {
+			nums = append(nums, 1<<n, 1<<n-1, 1<<n+1, ^uint32(0)<<n, ^uint32(0)>>n-1)
+		}
+		for i := 0; i < 96; i++ {
+			nums = append(nums, patternU32(r))
+			if v, ok := dictU32(r); ok {
+				nums = append(nums, v)
+			}
+		}
+		for _, no := range nums {
+			no := no
+			forceCardNo = &no
+			id := genID(r)
+			oc := genOp(r, 12, id, false)
+			forceCardNo = nil
+			reply := genReply(r, oc.Resp, id, 0, nil)
+			apiCase(s, Cfg{}, oc, Script{Kind: "datagrams", Datagrams: [][]byte{reply}}, "card-number-sweep/PutCard", nil, true)
+		}
+	}
+	if mix.configs {
+		// one configured controller: every protocol string (the pool, and every short string literal of the source) x every
+		// way the exchange can end (reply, error, nothing) x directed / not addressable - one request, one transport
+		protos := append([]string{}, protoPool...)
+		for _, lit := range sourceDict().Strings {
+			if len(lit) <= 5 && len(lit) > 0 {
+				protos = append(protos, lit, strings.ToUpper(lit))
+			}
+		}
+		for _, proto := range protos {
+			for _, kind := range []string{"datagrams", "error", "return", "nil"} {
+				for _, addr := range []netip.AddrPort{netip.MustParseAddrPort("10.1.2.3:60000"), netip.AddrPortFrom(netip.IPv4Unspecified(), 60000), {}} {
+					id := genID(r)
+					cfg := Cfg{Devices: []DevCfg{{ID: id, Name: "p", Addr: addr, Proto: proto}}}
+					oc := genOp(r, []int{4, 1, r.Intn(nOps)}[r.Intn(3)], id, false)
+					reply := genReply(r, oc.Resp, id, 0, nil)
+					if kind == "nil" && oc.Name != "SetAddress" {
+						continue // the real driver returns "no reply, no error" for set-ip requests only
+					}
+					sc := Script{Kind: kind}
+					switch kind {
+					case "datagrams":
+						sc.Datagrams = [][]byte{reply}
+					case "return":
+						sc.Return = reply
+					}
+					apiCase(s, cfg, oc, sc, "protocol-x-outcome/"+oc.Name, nil, true)
 				}
 			}
 		}
